@@ -91,6 +91,16 @@ def make_cases(chk, rng):
                 toks = " ".join(fs(A[min(i, j)][max(i, j)]) for i in range(n) for j in range(n))
                 cases.append({"name": f"d{n}_{up}_{int(zp)}", "lines": [f"ldl.dense {n} {up} {toks} {' '.join(fs(x) for x in b)}"],
                               "meta": {"kind": "dense", "n": n}})
+    # multi-column right-hand sides through solve() and solveInPlace() (F19)
+    for n in [1, 2, 3, 5, 8, 33]:
+        for k in ([1, 2, 3, 4] if n <= 8 else [3]):
+            for up in (0, 1):
+                full = [[True] * n for _ in range(n)]
+                A = qd_values(rng, n, full)
+                B = [[F(rng.randint(-3, 3)) for _ in range(k)] for _ in range(n)]
+                toks = " ".join(fs(A[min(i, j)][max(i, j)]) for i in range(n) for j in range(n))
+                cases.append({"name": f"dm{n}_{k}_{up}", "lines": [f"ldl.densem {n} {up} {k} {toks} " + " ".join(fs(B[i][j]) for i in range(n) for j in range(k))],
+                              "meta": {"kind": "dense-multi-rhs", "n": n, "k": k}})
     # blocked path (n >= 32): an exactly vanishing pivot at the first/last position of a diagonal block and inside one
     # (block size 8 below 128, 16 below 256): the failure must be reported with the right index, never divided by
     for n in ([32, 33] + ([130, 257] if thorough else [])):
